@@ -132,10 +132,13 @@ class SymNd(np.ndarray):
             _nd_setitem(self, k, v)
             return
         if isinstance(k, BoolNd):
+            if np.ndim(v) and np.size(v) != 1:
+                # numpy semantics: the value array supplies one entry per TRUE position, in order -- the mask is made concrete (fork)
+                _nd_setitem(self, _concrete_mask(k), v)
+                return
             flat_k = np.broadcast_to(k, self.shape)
-            vb = np.broadcast_to(np.asarray(v, dtype=object), self.shape) if np.ndim(v) else None
+            val = v if not np.ndim(v) else np.asarray(v, dtype=object).reshape(-1)[0]
             for idx in np.ndindex(self.shape):
-                val = v if vb is None else vb[idx]
                 _nd_setitem(self, idx, ite(flat_k[idx], val, _nd_getitem(self, idx)))
             return
         _nd_setitem(self, k, v)
@@ -221,6 +224,22 @@ class BoolNd(np.ndarray):
     def __array_function__(self, func, types_, args, kwargs):
         return _array_function(self, func, types_, args, kwargs)
 
+    def __array_ufunc__(self, ufunc, method, *inputs, out=None, **kwargs):
+        # logical ufuncs on arrays of (symbolic) booleans stay arrays of booleans
+        if method == "__call__" and out is None:
+            if ufunc in (np.logical_not, np.invert) and len(inputs) == 1:
+                return _mapb(lambda x: ~SBool.of(x), inputs[0])
+            if ufunc in (np.logical_and, np.bitwise_and) and len(inputs) == 2:
+                return _zipb(lambda a, b: SBool.of(a) & SBool.of(b), *_bool_operands(inputs))
+            if ufunc in (np.logical_or, np.bitwise_or) and len(inputs) == 2:
+                return _zipb(lambda a, b: SBool.of(a) | SBool.of(b), *_bool_operands(inputs))
+            if ufunc in (np.logical_xor, np.bitwise_xor, np.not_equal) and len(inputs) == 2:
+                return _zipb(lambda a, b: (SBool.of(a) & ~SBool.of(b)) | (~SBool.of(a) & SBool.of(b)), *_bool_operands(inputs))
+            if ufunc is np.equal and len(inputs) == 2:
+                return _zipb(lambda a, b: (SBool.of(a) & SBool.of(b)) | (~SBool.of(a) & ~SBool.of(b)), *_bool_operands(inputs))
+        ins = tuple(np.asarray(x).view(np.ndarray) if isinstance(x, np.ndarray) else x for x in inputs)
+        return _wrap(getattr(ufunc, method)(*ins, **kwargs)) if out is None else getattr(ufunc, method)(*ins, out=out, **kwargs)
+
     def __invert__(self):
         return _mapb(lambda x: ~SBool.of(x), self)
 
@@ -250,6 +269,15 @@ class BoolNd(np.ndarray):
         if _lying_frame():
             return np.dtype(bool)
         return _nd_dtype(self)
+
+
+def _bool_operands(inputs):
+    a, b = inputs
+    if not isinstance(a, np.ndarray):
+        a = np.broadcast_to(np.array(a, dtype=object), np.shape(b))
+    if not isinstance(b, np.ndarray):
+        b = np.broadcast_to(np.array(b, dtype=object), np.shape(a))
+    return a, b
 
 
 def _concrete_mask(k):
@@ -730,14 +758,92 @@ def _array_function(self, func, types_, args, kwargs):
         return f(*args, **kwargs)
     if func in CONCRETE_ONLY:
         if all(is_concrete(a) for a in args):
-            return func(*[to_concrete(a) for a in args], **kwargs)
+            # float results stay in the symbolic array world (they may be indexed by symbolic masks or mixed with symbols later)
+            return _symbolic_result(func(*[to_concrete(a) for a in args], **kwargs))
         if func is np.cumsum:
             return _cumsum(*args, **kwargs)
         if func is np.mean:
             return _mean(*args, **kwargs)
+        if func is np.prod:
+            return _prod(*args, **kwargs)
+        if func is np.nonzero:
+            return _nonzero(*args, **kwargs)
+        if func is np.linalg.matrix_power:
+            return _matrix_power(*args, **kwargs)
+        if func is np.linalg.solve:
+            return _solve(*args, **kwargs)
+        if func is np.sort:
+            return _sort(*args, **kwargs)
+        if func is np.argsort:
+            return _argsort(*args, **kwargs)
         raise core.StubMiss(f"{getattr(func, '__name__', func)} called on symbolic data without a stub")
     r = np.ndarray.__array_function__(self, func, types_, args, kwargs)
     return _wrap(r)
+
+
+def _symbolic_result(r):
+    if not MODE["symbolic"]:
+        return r
+    if isinstance(r, np.ndarray) and r.dtype.kind in "fc" and r.ndim > 0:
+        return SymNd(r.astype(object))
+    if isinstance(r, tuple):
+        return type(r)(*[_symbolic_result(x) for x in r]) if hasattr(r, "_fields") else tuple(_symbolic_result(x) for x in r)
+    return r
+
+
+def _nonzero(a):
+    """indices of the true / non-zero entries as CONCRETE integers: the entries' tests fork the path"""
+    A = np.asarray(a, dtype=object)
+    mask = np.empty(A.shape, dtype=bool)
+    for idx in np.ndindex(A.shape):
+        x = A[idx]
+        mask[idx] = bool(x) if isinstance(x, (SBool, bool, np.bool_)) else bool(Sym.of(x) != 0)
+    return np.nonzero(mask)
+
+
+def _matrix_power(a, n):
+    if not isinstance(n, (int, np.integer)) or n < 0:
+        raise core.StubMiss("matrix_power with a negative or non-integer exponent on symbolic data")
+    A = np.asarray(a, dtype=object)
+    out = np.eye(A.shape[0]).astype(object)
+    for _ in range(int(n)):
+        out = out @ A
+    return _wrap(out)
+
+
+def _prod(a, axis=None, **kw):
+    if axis is not None:
+        raise core.StubMiss("prod(axis) on symbolic data")
+    tot = 1
+    for x in _flat(a):
+        tot = tot * x
+    return tot
+
+
+def _solve(a, b, **kw):
+    """solve(a, b) == inv(a) @ b (exact arithmetic; a concrete or small symbolic, see _inv)"""
+    ai = np.linalg.inv(to_concrete(a)).astype(object) if is_concrete(a) else np.asarray(_inv(a if isinstance(a, SymNd) else SymNd(a)), dtype=object)
+    return _wrap(ai @ np.asarray(b, dtype=object))
+
+
+def _argsort(a, axis=-1, kind=None, **kw):
+    """stable ascending order as CONCRETE indices: the comparisons fork the path (real entries, one axis)"""
+    A = np.asarray(a, dtype=object)
+    if A.ndim != 1:
+        raise core.StubMiss("argsort of a symbolic array with more than one axis")
+    xs = list(A)
+    order = []
+    for i in range(len(xs)):            # insertion: position of entry i among the earlier ones (ties keep the input order)
+        k = len(order)
+        while k > 0 and bool(Sym.of(xs[i]) < xs[order[k - 1]]):
+            k -= 1
+        order.insert(k, i)
+    return np.array(order, dtype=np.intp)
+
+
+def _sort(a, axis=-1, **kw):
+    A = np.asarray(a, dtype=object)
+    return SymNd([A[i] for i in _argsort(A)])
 
 
 def _cumsum(a, axis=None, **kw):
@@ -787,6 +893,50 @@ if _orig_rmm is not None:
 # ----------------------------------------------------------------------------------------
 # numpy proxy installed as the module-global `np` of quara modules under analysis
 # ----------------------------------------------------------------------------------------
+_UFUNC_FOLDS = {"add": lambda x, y: x + y, "multiply": lambda x, y: x * y, "subtract": lambda x, y: x - y,
+                "maximum": lambda x, y: _maximum(x, y), "minimum": lambda x, y: _minimum(x, y)}
+
+
+def _ufunc_reduce(n, a, axis=0, **kw):
+    """np.<ufunc>.reduce along one axis (default 0, like numpy), python-level fold"""
+    if not MODE["symbolic"] or is_concrete(a):
+        return _wrap(getattr(np, n).reduce(to_concrete(a) if MODE["symbolic"] else a, axis=axis, **kw))
+    A = np.asarray(a, dtype=object)
+    op = _UFUNC_FOLDS[n]
+    if axis is None:
+        xs = list(A.reshape(-1))
+        tot = xs[0]
+        for x in xs[1:]:
+            tot = op(tot, x)
+        return tot
+    M = np.moveaxis(A, axis, 0)
+    tot = M[0]
+    for k in range(1, M.shape[0]):
+        tot = op(tot, M[k]) if n in ("add", "multiply", "subtract") else _wrap(np.array([op(u, v) for u, v in zip(np.reshape(tot, -1), M[k].reshape(-1))], dtype=object).reshape(M[k].shape))
+    return _wrap(tot) if isinstance(tot, np.ndarray) else tot
+
+
+def _ufunc_outer(n, a, b):
+    A, Bv = np.asarray(a, dtype=object), np.asarray(b, dtype=object)
+    op = _UFUNC_FOLDS[n]
+    out = np.empty(A.shape + Bv.shape, dtype=object)
+    for i in np.ndindex(A.shape):
+        for j in np.ndindex(Bv.shape):
+            out[i + j] = op(A[i], Bv[j])
+    return _wrap(out)
+
+
+def _ufunc_accumulate(n, a, axis=0):
+    A = np.asarray(a, dtype=object)
+    if A.ndim != 1:
+        raise core.StubMiss("ufunc.accumulate on a symbolic array with more than one axis")
+    op = _UFUNC_FOLDS[n]
+    out = [A[0]]
+    for x in A[1:]:
+        out.append(op(out[-1], x))
+    return SymNd(out)
+
+
 class _LinalgProxy(types.ModuleType):
     def __init__(self):
         super().__init__("symq_linalg_proxy")
@@ -818,6 +968,10 @@ class NpProxy(types.ModuleType):
                 return ov(*a, **kw)
             return _wrap(f(*a, **kw))
         wrapped.__name__ = n
+        if isinstance(f, np.ufunc) and n in _UFUNC_FOLDS:
+            wrapped.reduce = lambda a, axis=0, **kw: _ufunc_reduce(n, a, axis, **kw)
+            wrapped.outer = lambda a, b, **kw: _ufunc_outer(n, a, b)
+            wrapped.accumulate = lambda a, axis=0, **kw: _ufunc_accumulate(n, a, axis)
         return wrapped
 
     def _mk(self, r):
